@@ -1,8 +1,82 @@
-(** C04 - placeholder statements; see inf/InferFacts.v *)
-From Coq Require Import List NArith ZArith QArith Bool.
-From JS Require Import Str Lit Json Res GoValue Schema Basic GoType Encode Infer InferFacts.
+(** C04 - The inferred schema accepts the JSON encoding of every value of the type.
+    Proofs: inf/C04Main.v (model of infer.go: inf/Infer.v; of encoding/json: inf/GoType.v,
+    inf/Encode.v; acceptance against the specification function: inf/Accept.v). *)
+From Coq Require Import List NArith ZArith QArith Bool Lia.
+From JS Require Import Str Lit Json Res GoValue Hash Schema Basic Env Ann Validate Spec SpecMono Refine Corollaries
+     GoType Encode Infer InferFacts Accept WellTyped C04Main.
 Import ListNotations.
+Local Open Scope nat_scope.
 
+Lemma ForType_def o t : ForType o t = infer o 64 nil t.
+Proof. reflexivity. Qed.
+
+(** For every type T and options o of the domain ([good]: TypeSchemas holds only the
+    standard marshaler types, as strings; IgnoreInvalidTypes off; default debug setting),
+    every value v of T ([wt]: integers within their kind, arrays of their length, maps and
+    embedded pointers non-nil, marshaler values encoding as strings) and its encoding j
+    ([encode]: the model of encoding/json, with or without omitzero): the schema ForType
+    returns accepts j - at every location, under every dynamic scope, in every 2020-12
+    environment, i.e. by the specification function the evaluator is proved to refine. *)
+Theorem C04_main : forall re_match e oz o,
+  e_draft7 e = false -> o_ignore o = false -> o_tsnull o = false ->
+  forall t s, ForType o t = Ok (Some s) ->
+  forall g, good g o t -> forall m v k j, wt m t v = true -> encode oz k t v = Some j ->
+  accepts re_match e s j.
+Proof. intros re_match e oz o Hd Hig Hts t s Hf. rewrite ForType_def in Hf. apply (infer_accepts re_match e oz o Hd Hig Hts 64 [] t s Hf). Qed.
+Print Assumptions C04_main.
+
+(** ... hence Resolved.Validate returns nil for it (for every representation of j) *)
+Theorem C04_validate : forall re_match hash e oz o,
+  e_draft7 e = false -> o_ignore o = false -> o_tsnull o = false ->
+  forall t s, ForType o t = Ok (Some s) -> node_at e (0, []) = Some s -> isValidSchemaVersion (e_version e) = true ->
+  forall g, good g o t -> forall m v k j, wt m t v = true -> encode oz k t v = Some j ->
+  forall inst, gv_wf inst = true -> den inst = j ->
+  exists n, forall n', n <= n' -> Validate re_match hash n' e inst = Ok tt.
+Proof.
+  intros re_match hash e oz o Hd Hig Hts t s Hf Hroot Hv g Hg m v k j Hw He inst Hwf Hden.
+  destruct (accepts_fuel re_match e s j [] (0, []) (C04_main re_match e oz o Hd Hig Hts t s Hf g Hg m v k j Hw He)) as (n & Hn).
+  exists n. intros n' Hle. destruct (Hn n' Hle) as (sg & Hs).
+  apply (Validate_spec re_match hash n' e inst true Hwf Hv).
+  unfold spec_valid. rewrite Hroot, Hden, Hs. reflexivity.
+Qed.
+Print Assumptions C04_validate.
+
+(** the selection of struct fields keeps one field per JSON name (what lets the encoding's
+    members be matched with the schema's properties) *)
 Theorem C04_names_distinct : forall ovr t, NoDup (map jf_name (json_fields ovr t)).
 Proof. exact json_fields_names_nodup. Qed.
 Print Assumptions C04_names_distinct.
+
+(** non-vacuity: a struct with a JSON-name conflict through embedding (the former defect
+    O-6), a pointer, a slice, an array, a map, an omitempty field and a time.Time *)
+Definition fld (name : str) (tag : option str) (emb : bool) : finfo :=
+  mkF name true emb (match tag with Some _ => true | None => false end) (match tag with Some t => t | None => [] end) None.
+Definition tE : gtype := TyNamed (lit "main.E"%lit) (TyStruct [
+  (fld (lit "A"%lit) (Some (lit "a"%lit)) false, TyString);
+  (fld (lit "B"%lit) (Some (lit "b,omitempty"%lit)) false, TyPtr (TyInt KInt8))]).
+Definition tT : gtype := TyNamed (lit "main.T"%lit) (TyStruct [
+  (fld (lit "X"%lit) (Some (lit "a"%lit)) false, TyInt KUint16);
+  (fld (lit "E"%lit) None true, tE);
+  (fld (lit "L"%lit) None false, TySlice (TyArray 2 (TyFloat false)));
+  (fld (lit "M"%lit) (Some (lit "m"%lit)) false, TyMap true TyIface);
+  (fld (lit "W"%lit) None false, TyStd (lit "time.Time"%lit))]).
+Definition o_std : iopts := mkO false false [(lit "time.Time"%lit, Some str_schema)].
+Definition vT : tval := VStruct [VInt 65535; VStruct [VStr (lit "x"%lit); VNil]; VList [VList [VFloat (1#2); VFloat 0]];
+                                  VMap [(lit "k"%lit, VAny (JBool true))]; VStdV (JStr (lit "2020-01-01T00:00:00Z"%lit))].
+
+Example C04_example_good : good 4 o_std tT.
+Proof.
+  change (named_ok o_std tT /\ (struct_ok o_std tT /\ forall f, In f (json_fields (fun _ => false) tT) -> good 3 o_std (jf_decl f))).
+  split; [right; reflexivity|]. split.
+  - split; [vm_compute; reflexivity|].
+    intros f Hf. vm_compute in Hf.
+    repeat (destruct Hf as [<-|Hf]; [vm_compute; repeat split; discriminate|]). contradiction.
+  - intros f Hf. vm_compute in Hf.
+    repeat (destruct Hf as [<-|Hf]; [cbn; repeat split; try (left; reflexivity); try (right; reflexivity); auto|]); try contradiction.
+Qed.
+
+Example C04_example : exists s j,
+  ForType o_std tT = Ok (Some s) /\ wt 6 tT vT = true /\ encode false 9 tT vT = Some j /\
+  (* the outer "a" (a number) is what is encoded and what the schema describes *)
+  lookup (lit "a"%lit) (match j with JObj m => m | _ => [] end) = Some (JNum (65535#1)).
+Proof. vm_compute. eexists _, _. repeat split. Qed.
